@@ -163,10 +163,19 @@ func (c *Ctx) Watchdog(limit time.Duration, key string) {
 			id, since := c.curID, c.curSince
 			c.mu.Unlock()
 			if id != "" && time.Since(since) > limit {
-				c.Violation(key, id, fmt.Sprintf("decoding did not terminate within %v", limit), nil)
-				c.NotExhaustive()
-				c.Finish()
-				os.Exit(0)
+				if c.Only == "" {
+					// A worker that has been running for minutes under memory pressure, next to
+					// other workers, is a poor stopwatch: leave the verdict to a fresh process that
+					// runs this one case alone (the driver re-runs the case a worker died on).
+					fmt.Fprintf(os.Stderr, "watchdog: %s exceeded %v in a loaded worker; exiting for an isolated re-run\n", id, limit)
+					os.Exit(3)
+				}
+				if time.Since(since) > 4*limit {
+					c.Violation(key, id, fmt.Sprintf("decoding did not terminate within %v (one case alone in a fresh process)", 4*limit), nil)
+					c.NotExhaustive()
+					c.Finish()
+					os.Exit(0)
+				}
 			}
 		}
 	}()
